@@ -128,6 +128,12 @@ theorem kind_skeleton (k : StmtKind) (db : Str) (e : Bool) (srcs : List Source) 
     (Statement.skeleton k db e srcs sel).kind = k := by
   cases k <;> rfl
 
+/-- The three types that carry a SELECT. -/
+theorem selectStmt?_of_kind (st : Statement)
+    (h : st.kind = .SelectStatement ∨ st.kind = .ExplainStatement ∨ st.kind = .CreateContinuousQueryStatement) :
+    ∃ sel, st.selectStmt? = some sel := by
+  cases st <;> simp [Statement.kind] at h <;> exact ⟨_, rfl⟩
+
 theorem lookupRule_mem {k : StmtKind} {r : PrivRule} {t : List (StmtKind × PrivRule)}
     (h : lookupRule k t = some r) : (k, r) ∈ t := by
   induction t with
